@@ -140,6 +140,28 @@ theorem block_keeps {P} (h : DocInv P) : ∀ fuel, BlockKeeps P fuel := by
       mvcgen [elementFromNode, collectNamespacesOnNode, modifyDoc, getDoc, liftOpt, hcpx]
       all_goals kc h
 
+/-- a node is filed under the target namespace that is current when its reading ends -/
+theorem tfn_inNs (node : XNode) (ctx : Ctx) (fuel : Nat) :
+    ⦃fun _ => ⌜True⌝⦄ tryFromNode node ctx fuel ⦃post⟨fun r d' => ⌜r.inNs = d'.current⌝, fun _ _ => ⌜True⌝⟩⦄ := by
+  have hT : DocInv (fun _ => True) := ⟨fun _ _ _ _ => trivial, fun _ _ _ => trivial, fun _ _ _ => trivial, fun _ _ _ => trivial, fun _ _ => trivial⟩
+  cases fuel with
+  | zero => mvcgen [tryFromNode]
+  | succ fuel =>
+    have hcpx := (block_keeps hT fuel).cpx
+    have helt := (block_keeps hT fuel).elt
+    have hsimple := fun node => keeps_simple hT node
+    unfold Keeps at hcpx helt hsimple
+    mvcgen [tryFromNode, switchToTargetNamespace, collectNamespacesOnNode, modifyDoc, getDoc, hcpx, helt, hsimple]
+
+theorem tfn_run_inNs (node : XNode) (ctx : Ctx) (fuel : Nat) (d : Doc) (n : RNode)
+    (hr : (runNM (tryFromNode node ctx fuel) d).1 = .ok n) : n.inNs = (runNM (tryFromNode node ctx fuel) d).2.current := by
+  have := run_of_triple _ _ _ _ (tfn_inNs node ctx fuel) d trivial
+  revert this hr
+  rcases runNM (tryFromNode node ctx fuel) d with ⟨r, d'⟩
+  cases r with
+  | ok a => intro hr h; cases hr; exact h
+  | error e => intro hr; cases hr
+
 /-! the SOAP readers -/
 
 theorem keeps_message {P} (h : DocInv P) (node : XNode) (ctx : Ctx) (fuel : Nat) : Keeps P (messageFromNode node ctx fuel) := by
